@@ -378,8 +378,8 @@ class Execution:
                 from .faults import failing_allocation
                 with failing_allocation(int(act["fail_alloc"])) as proxy:
                     o = self.apply(act["step"], bind=False)
-                self._count("alloc_fault_armed")
-                if proxy.fired:
+                self._count("alloc_fault_armed" if proxy is not None else "alloc_fault_seam_unavailable")
+                if proxy is not None and proxy.fired:
                     self._count("alloc_fault_fired")
                     self._count("alloc_fault_fired_in:" + str(proxy.fired_in))
                     if o[0] == "raised":
@@ -506,7 +506,7 @@ def run(program, schedule=None, width="int64", probe=None):
     acts = {}
     for gap, act in schedule.get("acts", []):
         acts.setdefault(int(gap), []).append(act)
-    old_width = ViewBase._dtype
+    old_width = getattr(ViewBase, "_dtype", np.int64)
     ViewBase.set_dtype(WIDTHS[width])
     ex = Execution(width=width, probe=probe)
     try:
@@ -531,7 +531,7 @@ def run(program, schedule=None, width="int64", probe=None):
             ex.final_dump()
     finally:
         ViewBase.set_dtype(old_width)
-    if ViewBase._dtype is not old_width:
+    if getattr(ViewBase, "_dtype", old_width) is not old_width:
         raise HarnessError("index width not restored")
     return ex
 
